@@ -628,6 +628,29 @@ func seamA(rep *ev.Report) {
 		}
 	}
 
+	// ---- P4b: record lengths around 2^8, 2^12, 2^13 and up to the 2^14 limit of a TLS record ----
+	r.phase = "P4b_record_length"
+	{
+		mk := func(pad int) []byte {
+			return (&chello.Hello{Version: 0x0303, Ciphers: realCiphers, Exts: append(stdExts(0, 2, 3), chello.Padding(pad))}).Record()
+		}
+		base0 := len(mk(0)) - 5
+		var want []int
+		for _, c := range []int{256, 4096, 8192} {
+			for d := -2; d <= 2; d++ {
+				want = append(want, c+d)
+			}
+		}
+		for l := 16384 - 12; l <= 16384; l++ {
+			want = append(want, l)
+		}
+		for _, l := range want {
+			if l >= base0 && r.mine() {
+				r.eval(mk(l-base0), fmt.Sprintf("first record with a fragment of %d bytes", l))
+			}
+		}
+	}
+
 	// ---- P5: metamorphic closure over a family of base hellos --------------------------------
 	r.phase = "P5_metamorphic_closure"
 	var bases []base
